@@ -288,7 +288,10 @@ type Replica struct {
 	Pool     *mempool.TxPool
 	Chain    *blockchain.Blockchain
 	Loc      *time.Location
-	EpochFn  func(height uint64, appState *appstate.AppState, c collector.StatsCollector) types.TotalValidationResult
+	// the block this node built itself most recently; every other block reaches it "over the wire",
+	// i.e. as a decoded copy (caches that live on Go objects, e.g. verified-flags on transactions, do not travel)
+	lastProposed *types.Block
+	EpochFn      func(height uint64, appState *appstate.AppState, c collector.StatsCollector) types.TotalValidationResult
 }
 
 // Start builds all in-memory objects over r.DB following node.StartWithHeight.
@@ -370,20 +373,58 @@ func (r *Replica) CanPropose() bool {
 func (r *Replica) Propose() *types.BlockProposal {
 	r.enter()
 	defer setLocal(time.UTC)
-	return r.Chain.ProposeBlock([]byte{})
+	p := r.Chain.ProposeBlock([]byte{})
+	r.lastProposed = p.Block
+	return p
+}
+
+// WireCopy is the block as another node receives it: encoded and decoded again.
+func WireCopy(b *types.Block) *types.Block {
+	data, err := b.ToBytes()
+	if err != nil {
+		panic(err)
+	}
+	c := new(types.Block)
+	if err := c.FromBytes(data); err != nil {
+		panic(err)
+	}
+	if c.Body == nil {
+		c.Body = &types.Body{}
+	}
+	return c
+}
+
+// WireCopyTx is the transaction as another node receives it.
+func WireCopyTx(tx *types.Transaction) *types.Transaction {
+	data, err := tx.ToBytes()
+	if err != nil {
+		panic(err)
+	}
+	c := new(types.Transaction)
+	if err := c.FromBytes(data); err != nil {
+		panic(err)
+	}
+	return c
+}
+
+func (r *Replica) received(b *types.Block) *types.Block {
+	if b == r.lastProposed {
+		return b
+	}
+	return WireCopy(b)
 }
 
 func (r *Replica) Validate(b *types.Block) error {
 	r.enter()
 	defer setLocal(time.UTC)
-	_, err := r.Chain.ValidateBlock(b, nil, collector.NewStatsCollector())
+	_, err := r.Chain.ValidateBlock(r.received(b), nil, collector.NewStatsCollector())
 	return err
 }
 
 func (r *Replica) AddBlock(b *types.Block) error {
 	r.enter()
 	defer setLocal(time.UTC)
-	return r.Chain.AddBlock(b, nil, collector.NewStatsCollector())
+	return r.Chain.AddBlock(r.received(b), nil, collector.NewStatsCollector())
 }
 
 func (r *Replica) EmptyBlock() *types.Block {
